@@ -5,6 +5,9 @@ import (
 	"encoding/json"
 	"errors"
 	"fmt"
+	"github.com/bytedance/gopkg/cloud/metainfo"
+	"regexp"
+	"sort"
 	"strings"
 	"time"
 
@@ -100,7 +103,18 @@ func runC15(c *ctx) {
 			default:
 				rt.Clusters = [][2]interface{}{{fmt.Sprintf("c%d", g.seq), 1 + r.intn(3)}}
 			}
+			if r.chance(35) {
+				// header conditions, some with an expression the engine rejects: whatever the control plane supplies,
+				// neither the routing step nor the retry-key computation may panic
+				rt.Conds = g.conds()
+			}
 			return rt
+		}
+		md := map[string]string{}
+		for _, k := range c08Keys {
+			if r.chance(60) {
+				md[k] = r.pick(c08Vals)
+			}
 		}
 		var fs []*gFilter
 		var tcfg *gCfg
@@ -163,6 +177,9 @@ func runC15(c *ctx) {
 		}
 		ri := newRI(svcName, method, pretag, false)
 		ctx := rpcinfo.NewCtxWithRPCInfo(context.Background(), ri)
+		for k, v := range md {
+			ctx = metainfo.WithValue(ctx, k, v)
+		}
 		nextCalls := 0
 		var err error
 		var p bool
@@ -233,8 +250,27 @@ func runC15(c *ctx) {
 		}
 		c.count("listener="+lsup, 1)
 		c.count("step="+step, 1)
+		var mkeys []string
+		for k := range md {
+			mkeys = append(mkeys, k)
+		}
+		sort.Strings(mkeys)
+		mdl := []interface{}{}
+		for _, k := range mkeys {
+			mdl = append(mdl, []interface{}{k, md[k]})
+		}
+		rx := []interface{}{}
+		for _, re := range c08Regexes {
+			cre, cerr := regexp.Compile(re)
+			if cerr != nil {
+				continue
+			}
+			for _, v := range c08Vals {
+				rx = append(rx, []interface{}{re, v, cre.MatchString(v)})
+			}
+		}
 		c.emit(obj{"op": step, "lsup": lsup, "nsup": nsup, "listener": lj, "named": nj, "pretag": pretag, "matchMethod": matchMethod,
-			"method": method, "obs": o})
+			"method": method, "md": mdl, "rx": rx, "obs": o})
 	}
 }
 
